@@ -78,11 +78,14 @@ pub fn emit_module(k: usize, spec: &AppSpec) -> String {
         }
         for v in 0..t.variants.max(1) {
             let cn = ctor_name(k, i, v);
-            let flag = match t.clone_if_necessary {
-                Some(true) => ", clone_if_necessary",
-                Some(false) => ", never_clone",
-                None => "",
+            let flag = match (&t.attr_clone, t.clone_if_necessary) {
+                (Some(written), _) if written.is_empty() => String::new(),
+                (Some(written), _) => format!(", {written}"),
+                (None, Some(true)) => ", clone_if_necessary".to_string(),
+                (None, Some(false)) => ", never_clone".to_string(),
+                (None, None) => String::new(),
             };
+            let flag = if t.allow_unused { format!("{flag}, allow(unused)") } else { flag };
             let mut sig = String::new();
             let mut body = String::new();
             params(k, spec, &t.inputs, &cn, &mut sig, &mut body);
@@ -98,7 +101,7 @@ pub fn emit_module(k: usize, spec: &AppSpec) -> String {
             } else {
                 format!("T{i} {{ tag: crate::rt::Tag::fresh(\"{tn}\", \"{cn}\"), _ns: std::marker::PhantomData }}")
             };
-            let _ = writeln!(s, "#[pavex::{}(id = \"M{k}_C{i}_{v}\"{flag})]", lifecycle_attr(t.life));
+            let _ = writeln!(s, "#[pavex::{}(id = \"M{k}_C{i}_{v}\"{flag})]", lifecycle_attr(t.attr_life.unwrap_or(t.life)));
             let _ = writeln!(s, "pub {asy}fn c{i}_{v}({sig}) -> {ret} {{");
             let _ = writeln!(s, "    crate::rt::enter(\"{cn}\");");
             s.push_str(&body);
@@ -114,11 +117,15 @@ pub fn emit_module(k: usize, spec: &AppSpec) -> String {
         }
     }
     // ---- components
+    let bulk = spec.bulk_groups();
     for (idx, c) in spec.comps.iter().enumerate() {
         let name = comp_name(k, idx);
         let mut sig = String::new();
         let mut body = String::new();
         params(k, spec, &c.inputs, &name, &mut sig, &mut body);
+        for (n, f) in c.fw.iter().enumerate() {
+            let _ = write!(sig, "fw{n}: {}, ", FRAMEWORK_INPUTS[*f as usize % FRAMEWORK_INPUTS.len()]);
+        }
         let asy = if c.is_async { "async " } else { "" };
         match &c.kind {
             CompKind::Pre => {
@@ -175,7 +182,12 @@ pub fn emit_module(k: usize, spec: &AppSpec) -> String {
                 let _ = writeln!(s, "    crate::rt::exit(\"{name}\", \"ok\");\n    {r}\n}}\n");
             }
             CompKind::Handler => {
-                let route = c.route.clone().unwrap_or(RouteSpec { methods: vec!["GET".into()], path: "/".into(), path_param_fields: vec![] });
+                let group = bulk.get(&idx).copied();
+                if let Some(g) = group {
+                    // bulk-imported routes live in their own module: `bp.routes(from![crate::m<k>::rg<g>])`
+                    let _ = writeln!(s, "pub mod rg{g}_{idx} {{\nuse super::*;");
+                }
+                let route = c.route.clone().unwrap_or(RouteSpec { methods: vec!["GET".into()], path: "/".into(), path_param_fields: vec![], bulk: false });
                 let ret = match c.fallible {
                     Some(e) => format!("Result<Response, E{e}>"),
                     None => "Response".to_string(),
@@ -195,6 +207,9 @@ pub fn emit_module(k: usize, spec: &AppSpec) -> String {
                 let r = format!("Response::ok().set_typed_body(\"h:{name}\".to_string())");
                 let r = if c.fallible.is_some() { format!("Ok({r})") } else { r };
                 let _ = writeln!(s, "    crate::rt::exit(\"{name}\", \"ok\");\n    {r}\n}}\n");
+                if group.is_some() {
+                    s.push_str("}\n\n");
+                }
             }
             CompKind::ErrHandler { err, default } => {
                 let d = if *default { ", default = true" } else { "" };
@@ -254,13 +269,35 @@ fn route_attr(r: &RouteSpec, k: usize, idx: usize) -> String {
 fn emit_regs(k: usize, spec: &AppSpec, regs: &[Reg], depth: usize, s: &mut String) {
     let bp = format!("bp{depth}");
     let ind = "    ".repeat(depth + 1);
+    let bulk = spec.bulk_groups();
+    let mut emitted_groups: Vec<usize> = vec![];
     for r in regs {
+        if let Reg::Comp { idx } = r {
+            if let Some(g) = bulk.get(idx) {
+                // one `routes` call per group, at the position of its first member
+                if !emitted_groups.contains(g) {
+                    emitted_groups.push(*g);
+                    let mods: Vec<String> = bulk.iter().filter(|(_, gg)| *gg == g).map(|(i, _)| format!("crate::m{k}::rg{g}_{i}")).collect();
+                    let _ = writeln!(s, "{ind}{bp}.routes(pavex::blueprint::from![{}]);", mods.join(", "));
+                }
+                continue;
+            }
+        }
         match r {
             Reg::Ctor { ty, variant } => {
                 if spec.types[*ty].prebuilt {
                     let _ = writeln!(s, "{ind}{bp}.prebuilt(M{k}_P{ty});");
                 } else {
-                    let _ = writeln!(s, "{ind}{bp}.constructor(M{k}_C{ty}_{variant});");
+                    // C19(b): what the attribute says may be overridden at registration time
+                    let t = &spec.types[*ty];
+                    let mut over = String::new();
+                    if t.attr_life.is_some() {
+                        let _ = write!(over, ".lifecycle(pavex::blueprint::Lifecycle::{})", match t.life { Life::Singleton => "Singleton", Life::Request => "RequestScoped", Life::Transient => "Transient" });
+                    }
+                    if t.attr_clone.is_some() {
+                        over.push_str(match t.clone_if_necessary { Some(true) => ".clone_if_necessary()", _ => ".never_clone()" });
+                    }
+                    let _ = writeln!(s, "{ind}{bp}.constructor(M{k}_C{ty}_{variant}){over};");
                 }
             }
             Reg::Comp { idx } => {
